@@ -194,7 +194,7 @@ def rand_string(r, expression_capable=False, minlen=None, maxlen=None, multiline
     for _ in range(50):
         k = r.random()
         if maxlen == 1:
-            s = r.choice("abcXYZ .,;é€/|~")
+            s = r.choice("abcXYZ .,;é€/|~ßŉǰẞ")  # (some one-character strings grow under case FOLDING, none under lower-casing)
         elif k < 0.08:
             s = r.choice(enum_words())
             s = r.choice([s, s.upper(), s.lower()])
@@ -298,6 +298,10 @@ def rand_expr(r, small=True):
     return "(" + X.render(t, r, 0.1) + ")", t
 
 
+# keywords whose value is compared with an attribute (CLASSITEM / FILTERITEM ...): where MapServer takes "string"i besides /regex/i
+ISTRING_KEYS = {("class", "expression"), ("layer", "filter"), ("label", "expression"), ("cluster", "group"), ("cluster", "filter")}
+
+
 def rand_regex(r):
     body = r.choice(["^a", "ab+c", "^[0-9]+$", "a|b", "x.*y", "road", "^(north|south)$", "a b"])
     return "/" + body + "/" + r.choice(["", "", "i"])
@@ -360,6 +364,10 @@ def make_item(p, a, r, gen_children=None):
         return Item("attr", key, shape="expression", toks=[Tok("raw", src)], value=None, expr=tree)
     if k == "regex":
         s = rand_regex(r)
+        if r.random() < 0.25 and (p.obj, key) in ISTRING_KEYS:
+            # the other case-insensitive form: a quoted string followed by the i flag - stored with its own quotes and the flag
+            s = r.choice(['"aitkin"i', "'x y'i", '"Ünï cödé"i', "'(paren'i", '"a/b"i'])
+            return Item("attr", key, shape="istring", toks=[Tok("raw", s)], value=s)
         return Item("attr", key, shape="regex", toks=[Tok("raw", s)], value=s)
     if k == "hexcolor":
         h = rand_hex(r)
